@@ -158,10 +158,11 @@ class Session:
         self.log(op="obs", g=o["g"], e=epoch, nm=nm or which, s=s, name="observe")
         return s
 
-    def predict(self, oid, epoch, X, I=None, name="predict"):
+    def predict(self, oid, epoch, X, I=None, name="predict", keys=None):
+        """keys: what identifies a sample when it is not its feature row (pre-computed distances: the index into the matrix)."""
         o = self.objs[oid]
         m = o["m"]
-        rows = [self.I("arr", self.np.array(r)) for r in X]
+        rows = [self.I("arr", self.np.array(r)) for r in X] if keys is None else [self.I("arr", self.np.array([int(k)], dtype=self.np.int64)) for k in keys]
         try:
             with H.time_limit(CALL_SECONDS):
                 r = m.predict(X, I)
@@ -227,6 +228,20 @@ class Session:
         tag, path = self.last_save
         if spelling:
             path = os.path.join(os.path.dirname(path), ".", os.path.basename(path))
+        new = self.new_model(o["kind"], o["g"], **fresh_cfg)
+        self.call("load", self.objs[new]["m"].load, path)
+        self.observe(new, epoch, "full", nm=tag)
+        return new
+
+    def save_again_and_load(self, oid, epoch, fresh_cfg):
+        """The model has been used since it was saved (relevance marks, propagated labels): saving it once more to the SAME file and
+        loading that file gives the model as it is now - not the one an earlier save left there."""
+        o = self.objs[oid]
+        self.ctr += 1
+        tag = "full@%d" % self.ctr
+        _, path = self.last_save
+        self.observe(oid, epoch, "full", nm=tag)
+        self.call("save", o["m"].save, path)
         new = self.new_model(o["kind"], o["g"], **fresh_cfg)
         self.call("load", self.objs[new]["m"].load, path)
         self.observe(new, epoch, "full", nm=tag)
